@@ -326,6 +326,8 @@ def check_history(case):
         # of its own or ("shared-table") in the one table all events share - there the newest registration of the name is the one in force
         cfg = shared if local in (False, "shared-table") else Config(version=2.0)
         if local:
+            if local == "shared-table" and step % 2:
+                cfg.classes.add(cls, "Alias%d" % step)  # the same class is also known under another name
             cfg.classes.add(cls)
         try:
             back = transport([o, {"k": o}], "dump-load" if step % 2 else "dumps-loads", cfg)
